@@ -6,7 +6,7 @@ tasks must run, in pull order), inspection/construction must run nothing, and at
 """
 from collections import Counter
 
-from tcv import families, histories, specs
+from tcv import families, histories, scratch, specs
 from tcv.core import Result, Violation
 
 
@@ -162,6 +162,48 @@ def _namemode_templates():
     return res
 
 
+def _unreadable_result_scenario():
+    """a stored result the library itself cannot read back (an object-dtype array: saved pickled, loaded with allow_pickle=False).
+    Whatever a later request does with it (the pinned code raises), it does not silently run the task again at the same location"""
+    import numpy as np
+    from pathlib import Path
+    from taskchain import Config, Task
+
+    runs = []
+
+    class Ragged(Task):
+        def run(self) -> np.ndarray:
+            runs.append(1)
+            a = np.empty(2, dtype=object)
+            a[0], a[1] = [1, 2, 3], [4]
+            return a
+
+    class Uses(Task):
+        class Meta:
+            input_tasks = [Ragged]
+
+        def run(self, ragged) -> int:
+            return len(ragged)
+
+    out = []
+    root = scratch.fresh('c04u')
+    try:
+        outcomes = []
+        for i in range(3):
+            ch = Config(Path(root) / 'data', name='c', data={'tasks': [Ragged, Uses]}).chain()
+            for name in (('ragged',) if i < 2 else ('uses',)):
+                try:
+                    ch[name].value
+                    outcomes.append('value')
+                except Exception as e:  # noqa
+                    outcomes.append(type(e).__name__)
+        if len(runs) != 1:
+            out.append(Violation('unreadable: storage location computed more than once', f'object-dtype array result: run executed {len(runs)} times over three chains (requests ended in {outcomes})', {'kind': 'unreadable'}))
+    finally:
+        scratch.drop(root)
+    return out
+
+
 QUICK = ['chain3', 'mount2', 'lazy', 'mem', 'empties']
 ALL = ['chain3', 'diamond', 'mount2', 'optpat', 'lazy', 'mem', 'shared', 'uses2', 'empties']
 
@@ -216,6 +258,8 @@ def run(tier, seed):
         res.add('transitions', r.coverage.get('transitions', 0))
         res.violations.extend(r.violations)
     res.merge(_namemode_templates())
+    res.violations.extend(_unreadable_result_scenario())
+    res.add('evaluations')
     # a task registry that outlives a chain (what MultiChain does, spread over time): the in-memory task shared by the chains runs once
     from tcv.checks import c13
     for sig, what in c13.namespace_scenarios():
@@ -236,6 +280,8 @@ def replay(case):
     import tcv
 
     tcv.quiet_library()
+    if case.get('kind') == 'unreadable':
+        return _unreadable_result_scenario()
     if case.get('kind') == 'registry':
         from tcv.checks import c13
         from tcv.core import Violation as V
